@@ -1,7 +1,70 @@
 (** C07 -- Garbage collection is invisible: it never frees or alters reachable data.
-    Only restatements of theorems proved under Proofs/, with their assumptions printed. *)
-From Pakhi Require Import Base Float64 Syntax Tables Lexer Interp.
-From Pakhi.Proofs Require Import GCMark GCSweep Alloc.
+    Only restatements of theorems proved under Proofs/, with their assumptions printed.
+
+    The headline is C07_any_collection_schedule_is_invisible: for every program the front end accepts, every fuel,
+    every world, any two collection schedules -- none, the interpreter's own allocation-counter trigger ([None]), a
+    collection forced at every statement boundary, or any other pattern -- produce the same output, the same final world
+    and the same result (the same error value: kind, line, file, message payload and the output before it).  It is proved
+    by a lock-step simulation of the two runs through a partial bijection of container addresses (Proofs/SimDefs.v,
+    Sim.v: every expression form, every built-in, every statement, calls to any depth) in which a collection on either
+    side keeps the two machines related (Proofs/GCInvisible.v, from the exactness of mark and sweep below).  [OutOfFuel]
+    (native stack exhaustion in the real interpreter) on either side is excluded: the model's printing depth budget
+    depends on the arena size, which the two runs do not share. *)
+From Pakhi Require Import Base Float64 Syntax Tables Lexer Parser Interp.
+From Pakhi.Proofs Require Import GCMark GCSweep Alloc WF WFOps NoPanic ParseOk SimDefs Sim GCInvisible.
+
+(* any two schedules, whole programs *)
+Theorem C07_any_collection_schedule_is_invisible : forall fs cwd main_path pfuel src code platform world fuel sched1 sched2,
+  front fs cwd main_path pfuel src = Ok code ->
+  match fst (run code fuel sched1 0 (init_machine platform world)), fst (run code fuel sched2 0 (init_machine platform world)) with
+  | OutOfFuel, _ | _, OutOfFuel => True
+  | Ok n1, Ok n2 => m_out n1 = m_out n2 /\ m_world n1 = m_world n2
+  | Err e1, Err e2 => e1 = e2
+  | Panic s1, Panic s2 => s1 = s2
+  | _, _ => False
+  end.
+Proof.
+  intros fs cwd main_path pfuel src code platform world fuel s1 s2 H.
+  destruct (front_output_ok fs cwd main_path pfuel src code H) as [Hok Hne].
+  exact (gc_schedule_invisible code platform world fuel s1 s2 Hok Hne).
+Qed.
+Print Assumptions C07_any_collection_schedule_is_invisible.
+
+(* the same from any pair of well-formed machines that differ only in where their containers live (addresses, free
+   lists, garbage, arena sizes, allocation counters), with any boundary counters: the general form used for the above *)
+Theorem C07_collections_invisible_from_any_related_states : forall code, code_ok code ->
+  forall fuel sched1 sched2 b1 b2 p m1 m2, bij p -> mrel p m1 m2 -> mwf code m1 -> mwf code m2 ->
+  same_end (fst (run code fuel sched1 b1 m1)) (fst (run code fuel sched2 b2 m2)).
+Proof. exact run_sim. Qed.
+Print Assumptions C07_collections_invisible_from_any_related_states.
+
+(* a single collection keeps a machine related to its uncollected twin *)
+Theorem C07_one_collection_keeps_the_machines_related : forall p m1 m2 h1', bij p -> mrel p m1 m2 ->
+  wf_heap (m_heap m1) -> wf_scopes (m_heap m1) (m_scopes m1) -> collect (m_scopes m1) (m_heap m1) = Ok h1' ->
+  exists q, bij q /\ mrel q (set_heap m1 h1') m2.
+Proof. exact collect_left. Qed.
+Print Assumptions C07_one_collection_keeps_the_machines_related.
+
+(* one statement, one expression: related machines stay related, same error otherwise -- for every fuel *)
+Theorem C07_no_statement_observes_addresses : forall code f,
+  Sev (eval code f) /\ Scl (call_loop code f) /\ Scl (interp code f).
+Proof. exact sim_fuel. Qed.
+Print Assumptions C07_no_statement_observes_addresses.
+
+(* non-vacuity of the schedule theorem: a program whose first list becomes garbage; collecting at every boundary and
+   never collecting end in different heaps (the forced run has freed and not reused a slot) but the same output *)
+Example C07_schedules_differ_inside_agree_outside :
+  let p0 := mkPos 1 [] in
+  let x := [120%N] in
+  let code := [FAssign AFirst x p0 [] (Some (EList [EStr [97%N] p0] p0)) p0;
+               FAssign AReassign x p0 [] (Some (EList [EStr [98%N] p0] p0)) p0;
+               FPrint (EVar x p0) p0; FEOS p0] in
+  let w0 := mkWorld [] [] [] in
+  exists n1 n2, fst (run code 50 (Some [true]) 0 (init_machine [] w0)) = Ok n1 /\
+                fst (run code 50 None 0 (init_machine [] w0)) = Ok n2 /\
+                m_out n1 = m_out n2 /\ m_out n1 <> [] /\
+                h_free_lists (m_heap n1) = [0] /\ h_free_lists (m_heap n2) = [].
+Proof. cbv zeta. eexists. eexists. split; [vm_compute; reflexivity|]. split; [vm_compute; reflexivity|]. repeat split; discriminate. Qed.
 
 (* the mark phase marks exactly what the variables of all open scopes can reach -- any heap shape, cycles included *)
 Theorem C07_mark_exact : forall h ss, wf_heap h -> wf_scopes h ss ->
